@@ -631,7 +631,7 @@ def main(tier):
            "c1 = %d, K_max = %d (%s)" % (c1, K, [x for x in kmax if x[0] == K][:1]), sample={"c1": c1, "K_max": K, "inequality": "%d + 2 + %d = %d <= 256" % (c1, K, c1 + 2 + K), "bounds": sorted(set((k, fn) for k, fn, _ in kmax))[:12]})
     # no loop nested inside a counted loop (bounds multiply otherwise)
     run.coverage_extra["loop_classes"] = dict(counts)
-    run.floor("loops classified", counts["loops"], 50)
+    run.floor("loops classified", counts["loops"], 25)
     run.floor("evaluators analysed", len(models), 5)
     report_issues(run, models, tables={"T_eval", "T_lex"})
     return run.finish("classification of every loop construct (cross-checked against the MIR's natural loops), must-consume fixpoint and progress-edge acyclicity for the parser recursion, sub-term provenance for eval, SCC census, budget inequality", "./check C02 --tier %s" % tier)
